@@ -432,11 +432,17 @@ class Check:
                     break
         return case
 
+    hangs = 0        # calls into the implementation that did not return (a held lock makes every later call hang as well)
+
+    def _limit(self):
+        return self.CASE_TIMEOUT if not self.hangs else min(self.CASE_TIMEOUT, 10)
+
     def safe_oracle(self, case):
         try:
-            with time_limit(self.CASE_TIMEOUT):
+            with time_limit(self._limit()):
                 return self.oracle(case)
         except CaseTimeout as e:
+            self.hangs += 1
             return 'the library call did not return: %s' % e
         except Exception as e:
             # an exception that escapes the oracle: if the innermost frame that belongs to the library or to the harness is a library
@@ -458,8 +464,12 @@ class Check:
             return None
 
     def safe_impl(self, case):
-        with time_limit(self.CASE_TIMEOUT):
-            return self.run_impl(case)
+        try:
+            with time_limit(self._limit()):
+                return self.run_impl(case)
+        except CaseTimeout:
+            self.hangs += 1
+            raise
 
 
 def write_replay(prop, obj):
@@ -569,6 +579,9 @@ def _main(chk, prop, tier, args, rundir, t0):
     snaps, coq_cases, keys = [], [], set()
     skipped = 0
     for case in cases:
+        if chk.hangs >= 3:
+            chk.stats['stopped_after_hangs'] = chk.hangs       # the exploration stops; the calls that hung are reported below
+            break
         what = chk.safe_oracle(case)
         if what:
             violations.append((case, what))
